@@ -24,6 +24,39 @@ pub enum Mode {
     Seeded(u64),
 }
 
+thread_local! {
+    static CURRENT: std::cell::RefCell<(Option<u64>, HashMap<String, f32>, u64, (f32, f32))> = std::cell::RefCell::new((None, HashMap::new(), 7, (0.25, 0.75)));
+}
+
+/// A variable by name, usable where no `Ctx` is at hand (stub closures registered with the library).
+pub fn fresh(name: &str) -> S {
+    CURRENT.with(|c| {
+        let c = c.borrow();
+        match c.0 {
+            Some(seed) => seeded(seed, name, -2.0, 2.0),
+            None => match c.1.get(name) {
+                Some(v) => *v,
+                None => seeded(c.2, name, (c.3).0, (c.3).1),
+            },
+        }
+    })
+}
+
+/// keep the thread-local view used by `fresh` in step with the context
+pub fn sync(ctx: &Ctx) {
+    CURRENT.with(|c| {
+        *c.borrow_mut() = (
+            match ctx.mode {
+                Mode::Seeded(k) => Some(k),
+                Mode::Model => None,
+            },
+            ctx.model.clone(),
+            ctx.default_seed,
+            ctx.default_range,
+        )
+    });
+}
+
 #[derive(Clone, Debug)]
 pub struct Record {
     pub role: String,
